@@ -102,7 +102,8 @@ Definition env_of (penv : assoc) (k : string) : option string :=
      bool     strconv.ParseBool's twelve spellings, and "" (weak decoding: false)
      int      0 | [-]d..d without leading zero, within int64
      uint16   0 | d..d without leading zero, below 65536
-     duration one or more <digits><h|m|s> segments, below 2^63 ns, rendered as time.Duration.String does
+     duration what time.ParseDuration accepts (sign, fractions, ns/us/ms/s/m/h), rendered as
+              time.Duration.String does
      string, enum: any text, unchanged *)
 
 Definition digit_val (c : ascii) : N := N_of_ascii c - 48.
@@ -153,41 +154,126 @@ Definition canon_bool (s : string) : option string :=
   else if existsb (String.eqb s) ["0"; "f"; "F"; "FALSE"; "false"; "False"; ""] then Some "false"
   else None.
 
-Definition unit_secs (c : ascii) : option N :=
-  if Ascii.eqb c "h"%char then Some 3600%N
-  else if Ascii.eqb c "m"%char then Some 60%N
-  else if Ascii.eqb c "s"%char then Some 1%N
-  else None.
-
-(* acc/have: the number being read; total: seconds so far; seg: at least one complete segment *)
-Fixpoint parse_dur (s : string) (acc : N) (have : bool) (total : N) (seg : bool) : option N :=
-  match s with
-  | EmptyString => if have then None else if seg then Some total else None
-  | String c r =>
-    if is_digit c then parse_dur r (acc * 10 + digit_val c) true total seg
-    else if have then
-      match unit_secs c with
-      | Some u => parse_dur r 0 false (total + acc * u) true
-      | None => None
-      end
-    else None
-  end.
+(* --- durations: time.ParseDuration (the mapstructure hook StringToTimeDurationHookFunc) and
+   time.Duration.String, on nanoseconds.
+   Grammar of ParseDuration:  [-+]? ( "0" | ( digits? ("." digits?)? unit )+ )   with at least one digit per
+   segment and unit in ns us (micro sign)s (mu)s ms s m h; a unit is every character up to the next digit or "."
+   The fraction of a segment contributes floor(f * unit / scale) (Go computes it in float64; the two agree for
+   the short fractions the generator uses).  Magnitudes above 2^63-1 ns (2^63 for a negative one) are refused. *)
 
 Definition dec (n : N) : string := NilEmpty.string_of_uint (N.to_uint n).
 
-(* time.Duration.String for a whole number of seconds *)
-Definition render_dur (t : N) : string :=
-  let h := N.div t 3600 in
-  let m := N.modulo (N.div t 60) 60 in
-  let s := N.modulo t 60 in
-  if N.eqb t 0 then "0s"
-  else if N.ltb 0 h then dec h ++ "h" ++ dec m ++ "m" ++ dec s ++ "s"
-  else if N.ltb 0 m then dec m ++ "m" ++ dec s ++ "s"
-  else dec s ++ "s".
+Definition micro_sign_s : string := String (ascii_of_N 194) (String (ascii_of_N 181) "s").   (* U+00B5 *)
+Definition greek_mu_s : string := String (ascii_of_N 206) (String (ascii_of_N 188) "s").    (* U+03BC *)
+
+Definition unit_ns (u : string) : option N :=
+  if String.eqb u "ns" then Some 1%N
+  else if String.eqb u "us" then Some 1000%N
+  else if String.eqb u micro_sign_s then Some 1000%N
+  else if String.eqb u greek_mu_s then Some 1000%N
+  else if String.eqb u "ms" then Some 1000000%N
+  else if String.eqb u "s" then Some 1000000000%N
+  else if String.eqb u "m" then Some 60000000000%N
+  else if String.eqb u "h" then Some 3600000000000%N
+  else None.
+
+Inductive dstate := DInt | DFrac | DUnit.
+
+(* closes a segment: total + v*unit + floor(f*unit/scale) *)
+Definition close_segment (total v f scale : N) (u : string) : option N :=
+  match unit_ns u with
+  | Some un => Some (total + v * un + N.div (f * un) scale)%N
+  | None => None
+  end.
+
+Definition snoc (s : string) (c : ascii) : string := s ++ String c EmptyString.
+
+(* v/pre: integer part and whether it has digits; f/scale/post: fraction; u: the unit read so far *)
+Fixpoint parse_dur (s : string) (st : dstate) (total v f scale : N) (pre post : bool) (u : string) : option N :=
+  match s with
+  | EmptyString =>
+    match st with
+    | DUnit => close_segment total v f scale u
+    | _ => None
+    end
+  | String c r =>
+    match st with
+    | DInt =>
+      if is_digit c then parse_dur r DInt total (v * 10 + digit_val c) f scale true post u
+      else if Ascii.eqb c "."%char then parse_dur r DFrac total v 0 1 pre false u
+      else if pre then parse_dur r DUnit total v f scale pre post (String c EmptyString)
+      else None
+    | DFrac =>
+      if is_digit c then parse_dur r DFrac total v (f * 10 + digit_val c) (scale * 10) pre true u
+      else if Ascii.eqb c "."%char then None
+      else if pre || post then parse_dur r DUnit total v f scale pre post (String c EmptyString)
+      else None
+    | DUnit =>
+      if is_digit c then
+        match close_segment total v f scale u with
+        | Some t => parse_dur r DInt t (digit_val c) 0 1 true false EmptyString
+        | None => None
+        end
+      else if Ascii.eqb c "."%char then
+        match close_segment total v f scale u with
+        | Some t => parse_dur r DFrac t 0 0 1 false false EmptyString
+        | None => None
+        end
+      else parse_dur r DUnit total v f scale pre post (snoc u c)
+    end
+  end.
+
+(* Some (negative?, nanoseconds) *)
+Definition parse_duration (s : string) : option (bool * N) :=
+  let '(neg, body) :=
+    match s with
+    | String "-"%char r => (true, r)
+    | String "+"%char r => (false, r)
+    | _ => (false, s)
+    end in
+  if String.eqb body "0" then Some (false, 0%N)
+  else
+    match parse_dur body DInt 0 0 0 1 false false EmptyString with
+    | Some t =>
+      if N.eqb t 0 then Some (false, 0%N)
+      else if neg then (if N.leb t two63 then Some (true, t) else None)
+      else (if N.ltb t two63 then Some (false, t) else None)
+    | None => None
+    end.
+
+Definition digit_char (d : N) : ascii := ascii_of_N (48 + d)%N.
+
+(* fmtFrac: the low prec decimal digits of v as ".ddd" without trailing zeros ("" when all zero), and v / 10^prec *)
+Fixpoint fmt_frac (v : N) (prec : nat) (printing : bool) (acc : string) : string * N :=
+  match prec with
+  | O => (if printing then String "."%char acc else acc, v)
+  | S p =>
+    let d := N.modulo v 10 in
+    let pr := printing || negb (N.eqb d 0) in
+    fmt_frac (N.div v 10) p pr (if pr then String (digit_char d) acc else acc)
+  end.
+
+(* time.Duration.String *)
+Definition render_duration (neg : bool) (u : N) : string :=
+  if N.eqb u 0 then "0s"
+  else
+    (if neg then "-" else "") ++
+    (if N.ltb u 1000 then dec u ++ "ns"
+     else if N.ltb u 1000000 then let '(fr, w) := fmt_frac u 3 false EmptyString in dec w ++ fr ++ micro_sign_s
+     else if N.ltb u 1000000000 then let '(fr, w) := fmt_frac u 6 false EmptyString in dec w ++ fr ++ "ms"
+     else
+       let '(fr, secs) := fmt_frac u 9 false EmptyString in
+       let sec := N.modulo secs 60 in
+       let mins := N.div secs 60 in
+       let m := N.modulo mins 60 in
+       let h := N.div mins 60 in
+       (if N.ltb 0 h then dec h ++ "h" ++ dec m ++ "m"
+        else if N.ltb 0 m then dec m ++ "m" else "")
+       ++ dec sec ++ fr ++ "s").
 
 Definition canon_duration (s : string) : option string :=
-  match parse_dur s 0 false 0 false with
-  | Some t => if N.ltb (t * 1000000000) two63 then Some (render_dur t) else None
+  match parse_duration s with
+  | Some (neg, t) => Some (render_duration neg t)
   | None => None
   end.
 
@@ -336,6 +422,17 @@ Definition db_validate (c : option dbcfg) (st : stat) : verdict :=
        then RejPostgresIncomplete else Accept)
     else RejUnsupported
   end.
+
+(* the same with the file system as the oracle: the ONLY path Validate asks about is the prepared-database
+   path - in particular not db.sqlite.file_path (whether the database file already exists is no input) *)
+Definition db_validate_fs (c : option dbcfg) (fs : string -> stat) : verdict :=
+  match c with
+  | None => RejNil
+  | Some c' => db_validate c (fs (prepared_path c'))
+  end.
+
+Definition fs_override (fs : string -> stat) (p : string) (st : stat) : string -> stat :=
+  fun q => if String.eqb q p then st else fs q.
 
 (* the declarative statement *)
 Definition engine_ok (c : dbcfg) : Prop :=
